@@ -725,13 +725,15 @@ func (d *docState) makeLines(pageIdx int, r *sim.Rand) (out []Line) {
 	if sp.Running > 0 && d.fonts[0].HasSpace() {
 		// running heads: the same short pieces at the same places on every page
 		for j := 0; j < sp.Running; j++ {
-			lines = append(lines, Line{Font: 0, Text: "Head " + words[(j*7+int(sp.Seed%11))%len(words)], X: 60 + float64(j)*105, Y: 770, Size: 9})
+			// (one below the other: side by side they would overlap under wide document metrics,
+			// and a reader may legitimately merge glyphs printed on top of each other)
+			lines = append(lines, Line{Font: 0, Text: "Head " + words[(j*7+int(sp.Seed%11))%len(words)], X: 60, Y: 784 - float64(j)*11, Size: 9})
 		}
 	}
 	defer func() {
 		if sp.Running > 0 && d.fonts[0].HasSpace() && out != nil {
 			for j := 0; j < sp.Running; j++ {
-				out = append(out, Line{Font: 0, Text: "Foot " + words[(j*5+int(sp.Seed%13))%len(words)], X: 60 + float64(j)*105, Y: 28, Size: 9})
+				out = append(out, Line{Font: 0, Text: "Foot " + words[(j*5+int(sp.Seed%13))%len(words)], X: 60, Y: 62 - float64(j)*11, Size: 9})
 			}
 		}
 	}()
@@ -751,13 +753,14 @@ func (d *docState) makeLines(pageIdx int, r *sim.Rand) (out []Line) {
 		}
 		lines = append(lines, ln)
 		if sp.Superscripts && ln.Size <= 12 && r.Pct(35) {
-			// a raised figure to the right of the line (an exponent, a footnote mark): a baseline
+			// a raised mark in the left margin (a footnote mark, a note number; never over the line's
+			// own glyphs, whatever the metrics): a baseline
 			// of its own, a third of the type size above the line's
 			mark := strconv.Itoa(2 + r.Intn(8))
 			if !d.fonts[fi].HasSpace() {
 				mark = string(sim.Pick(r, d.fonts[fi].Alphabet)) // fonts with an alphabet of their own
 			}
-			lines = append(lines, Line{Font: fi, Text: mark, X: 430, Y: y + ln.Size*0.35, Size: ln.Size * 0.6})
+			lines = append(lines, Line{Font: fi, Text: mark, X: 44, Y: y + ln.Size*0.35, Size: ln.Size * 0.6})
 		}
 		y -= ln.Size * 1.5
 	}
